@@ -19,7 +19,7 @@ VALUE_KINDS = ['smooth', 'noise', 'const', 'zeros', 'ramp', 'huge', 'neg', 'tiny
 def cube(shape, seed=0, kind='smooth', dead=None):
     """Finite float32 cube; every trace differs from every other (position watermark)."""
     if kind.startswith('dead'):
-        kind, dead = 'smooth', ('first-last' if kind == 'deadends' else 'first')
+        kind, dead = 'smooth', {'deadends': 'first-last', 'deadborder': 'border'}.get(kind, 'first')
     rng = np.random.default_rng(seed)
     g = np.meshgrid(*[np.arange(s, dtype=np.float64) for s in shape], indexing='ij')
     if kind == 'smooth':
@@ -53,6 +53,12 @@ def cube(shape, seed=0, kind='smooth', dead=None):
         a[0] = 0
         if dead == 'first-last':
             a[-1] = 0
+        if dead == 'border' and a.ndim == 3:
+            # a dead rim: also the first crossline(s), as many as the first n_xl traces of a crossline-sorted file cover
+            k = -(-a.shape[1] // a.shape[0])
+            a[:, :k] = 0
+            a[-1] = 0
+            a[:, -1] = 0
     return a
 
 
